@@ -349,8 +349,25 @@ def run(ctx):
         if kind == "nv":
             return ctx.tlc(sd, mod, cfg, workers=2, timeout=900, label="non-vacuity: %s must be refuted" % label)
         return ctx.tlc(sd, mod, cfg, workers=(4 if not T else 8), timeout=1500, label=label)
+    from concurrent.futures import ThreadPoolExecutor
+    bg = ThreadPoolExecutor(max_workers=1)
+    fut = bg.submit(lambda: parallel(tl, jobs, n=(8 if not T else 4)))
+
+    seen = set()
+    # (3) code -> spec, while TLC works: random scripts incl. concurrency, recorded and validated
+    ncfg, nh, hl = (9, 24, 30) if not T else (24, 80, 40)
+    scripts = []
+    for c in range(ncfg):
+        cfg = rand_config(ctx.rng, T, shape=SHAPES[c % len(SHAPES)])
+        scripts.append(script_of(cfg, [rand_history(ctx.rng, cfg, hl, conc=(i % 2 == 1)) for i in range(nh)], hooks=True))
+    rtraces = execute(ctx, binary, scripts, "rand")
+    ctx.sample({"kind": "recorded-trace", "events": rtraces[0][:14]})
+    judge(ctx, binary, scripts, rtraces, "rand", seen)
+    if not ctx.violations:
+        drift_check(ctx, "rand", len(scripts))
+
     g = None
-    for job, r in zip(jobs, parallel(tl, jobs, n=(8 if not T else 4))):
+    for job, r in zip(jobs, fut.result()):
         kind, mod, cfg, label = job
         if kind == "ex":
             if not r.ok or r.distinct <= 1:
@@ -363,7 +380,6 @@ def run(ctx):
         elif kind == "gen":
             g = r
 
-    seen = set()
     # (2) spec -> code: TLC walks of P replayed (Expire steps are the spec's own, not scripted)
     behaviours = tlc_vh_lines(g.out)
     if len(behaviours) < n:
@@ -387,23 +403,12 @@ def run(ctx):
     ctx.sample({"kind": "tlc-behaviour", "config": {k: GEN_CONFIG[k] for k in ("Max", "Expiry", "GcPeriod", "parent")}, "events": behaviours[0][:12]})
     judge(ctx, binary, gscripts, traces, "gen", seen)
 
-    # (3) code -> spec: random scripts incl. concurrency, recorded and validated
-    ncfg, nh, hl = (9, 24, 30) if not T else (24, 80, 40)
-    scripts = []
-    for c in range(ncfg):
-        cfg = rand_config(ctx.rng, T, shape=SHAPES[c % len(SHAPES)])
-        scripts.append(script_of(cfg, [rand_history(ctx.rng, cfg, hl, conc=(i % 2 == 1)) for i in range(nh)], hooks=True))
-    traces = execute(ctx, binary, scripts, "rand")
-    ctx.sample({"kind": "recorded-trace", "events": traces[0][:14]})
-    judge(ctx, binary, scripts, traces, "rand", seen)
-    if not ctx.violations:
-        drift_check(ctx, "rand", len(scripts))
     if ctx.cov["distinct_nontrivial"] < 20 and not ctx.violations:
         raise Broken("only %d non-trivial histories" % ctx.cov["distinct_nontrivial"])
 
     # (4) binding self-test (thorough): a corrupted / truncated recording must be rejected
     if T and not ctx.violations:
-        ev = [e for e in traces[0]]
+        ev = [e for e in rtraces[0]]
         k = next(i for i, e in enumerate(ev) if e.get("ev") == "req" and e.get("out") == "refuse")
         bad = [dict(e) for e in ev]
         bad[k]["out"] = "admit"
